@@ -257,65 +257,64 @@ LaRun(a) == LET m == LaSearch(LaText(a))
 (* Gran = "word": the scanning loop in small steps.                        *)
 (* Gran = "case": one step per case (outcome = Run), for the larger bounds;*)
 (* StepsAgree ties the two together.                                       *)
-(* The state holds an index into the (constant) sequence of cases.         *)
+(* The state holds the case itself (Init == case \in Cases, idiom A.1/A.4).  *)
 (***************************************************************************)
-AllCases == SetToSeq(Cases \cup LaCases)
-VARIABLES cid, st, outcome
-vars == <<cid, st, outcome>>
-case == AllCases[cid]
+VARIABLES case, st, outcome
+vars == <<case, st, outcome>>
 None == [kind |-> "none", out |-> <<>>, msgc |-> <<>>]
 Idle == [pc |-> "start", li |-> 0, wi |-> 0, pats |-> <<>>, shl |-> <<>>]
 
-Init == /\ cid \in 1..Len(AllCases)
-        /\ st = Idle
-        /\ outcome = None
+InitOn(S) == /\ case \in S
+             /\ st = Idle
+             /\ outcome = None
+Init == InitOn(Cases \cup LaCases)
 
 IsLdd == case.t = "ldd"
 Small == IsLdd /\ Gran = "word"
 Lst == ListingOf(Variant, case)
 Start == /\ Small /\ st.pc = "start" /\ Patterns(case) # <<>>
          /\ st' = [st EXCEPT !.pc = "scan", !.li = 1, !.wi = 1, !.pats = Patterns(case)]
-         /\ UNCHANGED <<cid, outcome>>
+         /\ UNCHANGED <<case, outcome>>
 ReturnEmpty == /\ Small /\ st.pc = "start" /\ Patterns(case) = <<>>               \* if len(patterns) == 0: return []
                /\ st' = [st EXCEPT !.pc = "done"]
                /\ outcome' = [kind |-> "ok", out |-> <<>>, msgc |-> <<>>]
-               /\ UNCHANGED cid
+               /\ UNCHANGED case
 AtLine == Small /\ st.pc = "scan" /\ st.li <= Len(Lst)
 HeaderLine == /\ AtLine /\ st.wi = 1 /\ SkipsLine(Variant, Lst[st.li])              \* if line.endswith(':'): continue
               /\ st' = [st EXCEPT !.li = @ + 1]
-              /\ UNCHANGED <<cid, outcome>>
+              /\ UNCHANGED <<case, outcome>>
 EmptyLine == /\ AtLine /\ Len(Lst[st.li]) = 0
              /\ st' = [st EXCEPT !.li = @ + 1]
-             /\ UNCHANGED <<cid, outcome>>
+             /\ UNCHANGED <<case, outcome>>
 WordStep(hit) == /\ AtLine /\ st.wi <= Len(Lst[st.li]) /\ ~SkipsLine(Variant, Lst[st.li])
                  /\ LET s2 == ScanWord(Variant, [pats |-> st.pats, shl |-> st.shl], Lst[st.li][st.wi])
                         eol == st.wi = Len(Lst[st.li])
                     IN /\ hit = (s2.pats # st.pats)
                        /\ st' = [st EXCEPT !.wi = IF eol THEN 1 ELSE @ + 1, !.li = IF eol THEN @ + 1 ELSE @,
                                            !.pats = s2.pats, !.shl = s2.shl]
-                 /\ UNCHANGED <<cid, outcome>>
+                 /\ UNCHANGED <<case, outcome>>
 WordHit == WordStep(TRUE)          \* del patterns[library]; shlibs.append(m.group()); break
 WordMiss == WordStep(FALSE)
 AtEnd == Small /\ st.pc = "scan" /\ st.li > Len(Lst)
 Fail == /\ AtEnd /\ st.pats # <<>> /\ Variant # "silent"                            \* raise SystemExit(...)
         /\ st' = [st EXCEPT !.pc = "done"]
         /\ outcome' = Finish(Variant, [pats |-> st.pats, shl |-> st.shl])
-        /\ UNCHANGED cid
+        /\ UNCHANGED case
 Return == /\ AtEnd /\ (st.pats = <<>> \/ Variant = "silent")                        \* return shlibs (then sanitize)
           /\ st' = [st EXCEPT !.pc = "done"]
           /\ outcome' = Finish(Variant, [pats |-> st.pats, shl |-> st.shl])
-          /\ UNCHANGED cid
+          /\ UNCHANGED case
 ScanAll == /\ IsLdd /\ Gran = "case" /\ st.pc = "start"
-           /\ st' = [st EXCEPT !.pc = "done"] /\ outcome' = Run(Variant, case) /\ UNCHANGED cid
+           /\ st' = [st EXCEPT !.pc = "done"] /\ outcome' = Run(Variant, case) /\ UNCHANGED case
 LaResolved == /\ ~IsLdd /\ st.pc = "start" /\ LaRun(case).out # <<>>
-              /\ st' = [st EXCEPT !.pc = "done"] /\ outcome' = LaRun(case) /\ UNCHANGED cid
+              /\ st' = [st EXCEPT !.pc = "done"] /\ outcome' = LaRun(case) /\ UNCHANGED case
 LaDropped == /\ ~IsLdd /\ st.pc = "start" /\ LaRun(case).out = <<>>
-             /\ st' = [st EXCEPT !.pc = "done"] /\ outcome' = LaRun(case) /\ UNCHANGED cid
+             /\ st' = [st EXCEPT !.pc = "done"] /\ outcome' = LaRun(case) /\ UNCHANGED case
 
 Next == Start \/ ReturnEmpty \/ HeaderLine \/ EmptyLine \/ WordHit \/ WordMiss \/ Fail \/ Return \/ ScanAll
         \/ LaResolved \/ LaDropped
 Spec == Init /\ [][Next]_vars
-Alias == [cid |-> cid, case |-> case, st |-> st, outcome |-> outcome,
+Alias == [case |-> case, st |-> st, outcome |-> outcome,
           failed |-> IF st.pc = "done" /\ IsLdd THEN Failed(case, outcome) ELSE {}]
 
 -----------------------------------------------------------------------------
